@@ -13,6 +13,12 @@ CONSTANTS
   Ops = {"CtxDeregister", "DropRef", "Dispatch", "CtxQuit", "ModPause", "ModResume", "ModStop", "ModDeregister", "Publish", "Subscribe", "Unsubscribe"}
   CbOps = {"ModPause", "Unsubscribe", "Publish"}
   EvalVals = {TRUE}
+  Prios = {"N"}
+  BatchSizes = {}
+  UnstashNs = {}
+  HandlerIds = {}
+  Targets = {"A", "B"}
+  AutoVals = {TRUE, FALSE}
   Senders = {"A", "B"}
   QuitCodes = {0, 1}
   Setup = "loop2"
